@@ -222,9 +222,15 @@ nni_msgq_aio_put(nni_msgq *mq, nni_aio *aio)
 
 	// If this is an instantaneous poll operation, and the queue has
 	// no room, nobody is waiting to receive, then report NNG_ETIMEDOUT.
-	if (!nni_aio_start(aio, nni_msgq_cancel, mq)) {
-		nni_mtx_unlock(&mq->mq_lock);
-		return;
+	// If the message can be taken right now (a reader is waiting or there
+	// is room, and no other writer is ahead of us) the operation does not
+	// wait, so it must not be refused for having a zero timeout.
+	if ((!nni_list_empty(&mq->mq_aio_putq)) ||
+	    (nni_list_empty(&mq->mq_aio_getq) && (mq->mq_len >= mq->mq_cap))) {
+		if (!nni_aio_start(aio, nni_msgq_cancel, mq)) {
+			nni_mtx_unlock(&mq->mq_lock);
+			return;
+		}
 	}
 	nni_aio_list_append(&mq->mq_aio_putq, aio);
 	nni_msgq_run_putq(mq);
@@ -237,9 +243,15 @@ void
 nni_msgq_aio_get(nni_msgq *mq, nni_aio *aio)
 {
 	nni_mtx_lock(&mq->mq_lock);
-	if (!nni_aio_start(aio, nni_msgq_cancel, mq)) {
-		nni_mtx_unlock(&mq->mq_lock);
-		return;
+	// If a message can be handed over right now (one is queued or a
+	// writer is waiting, and no other reader is ahead of us) the operation
+	// does not wait, so it must not be refused for having a zero timeout.
+	if ((!nni_list_empty(&mq->mq_aio_getq)) ||
+	    ((mq->mq_len == 0) && nni_list_empty(&mq->mq_aio_putq))) {
+		if (!nni_aio_start(aio, nni_msgq_cancel, mq)) {
+			nni_mtx_unlock(&mq->mq_lock);
+			return;
+		}
 	}
 
 	nni_aio_list_append(&mq->mq_aio_getq, aio);
